@@ -1083,7 +1083,7 @@ theorem output_rejection_is_foreign : checkOutput (.num 1) = .error (.foreign "V
 theorem anchor_ok_iff (v : PyVal) (s : Stored) :
     checkAnchor v = .ok s ↔
       (isZero v = true ∧ s = .array ⟨[3], [.fin 0, .fin 0, .fin 0]⟩) ∨ (v = .none ∧ s = .none) ∨
-      (isArrayLike v = true ∧ ∃ sh, hasShape sh v = true ∧ shapeCond [1, 2] 3 0 sh ∧ s = .array ⟨sh, flat v⟩) := by
+      (isArrayLike v = true ∧ ∃ sh, hasShape sh v = true ∧ shapeCond [1, 2] 3 0 sh ∧ prod sh ≠ 0 ∧ s = .array ⟨sh, flat v⟩) := by
   unfold checkAnchor
   by_cases hz : (isNumber v && isZeroNumber v) = true
   · have hz' : isZero v = true := by cases v <;> simp_all [isNumber, isZeroNumber, isZero]
@@ -1095,49 +1095,95 @@ theorem anchor_ok_iff (v : PyVal) (s : Stored) :
       cases v <;> simp_all [isNumber, isZeroNumber, isZero]
       all_goals (split <;> simp_all)
     simp only [hz, Bool.false_eq_true, if_false, hz', false_and, false_or]
-    rw [vector_ok_iff anchorCfg (by simp [anchorCfg]) rfl]
-    simp [anchorCfg]
+    unfold anchorVec
+    have hv : ∀ s, checkVector anchorCfg v = .ok s ↔ (v = .none ∧ s = .none) ∨
+        (isArrayLike v = true ∧ ∃ sh, hasShape sh v = true ∧ shapeCond [1, 2] 3 0 sh ∧ s = .array ⟨sh, flat v⟩) := by
+      intro s
+      rw [vector_ok_iff anchorCfg (by simp [anchorCfg]) rfl]
+      simp [anchorCfg]
+    cases hc : checkVector anchorCfg v with
+    | error e =>
+      simp only [reduceCtorEq, false_iff, not_or, not_and, not_exists]
+      refine ⟨?_, ?_⟩
+      · rintro rfl rfl
+        have := (hv .none).mpr (Or.inl ⟨rfl, rfl⟩)
+        rw [hc] at this; cases this
+      · intro ha sh hs hcnd _ hs'
+        have := (hv s).mpr (Or.inr ⟨ha, sh, hs, hcnd, hs'⟩)
+        rw [hc] at this; cases this
+    | ok s0 =>
+      rcases (hv s0).mp hc with ⟨rfl, rfl⟩ | ⟨ha, sh, hs, hcnd, rfl⟩
+      · simp only [isArrayLike, Bool.false_eq_true, false_and, or_false, true_and, Except.ok.injEq]
+        exact eq_comm
+      · have hvn : v ≠ .none := by rintro rfl; simp [isArrayLike] at ha
+        simp only [hvn, false_and, false_or, ha, true_and, NDArr.size]
+        by_cases h0 : prod sh = 0
+        · simp only [h0, beq_self_eq_true, if_true, reduceCtorEq, false_iff, not_exists, not_and]
+          intro sh' hs' _ hp
+          rw [hasShape_unique _ _ v hs' hs] at hp
+          exact absurd h0 hp
+        · have hb : (prod sh == 0) = false := by simpa using h0
+          simp only [hb, Bool.false_eq_true, if_false, Except.ok.injEq]
+          constructor
+          · rintro rfl; exact ⟨sh, hs, hcnd, h0, rfl⟩
+          · rintro ⟨sh', hs', _, _, rfl⟩
+            rw [hasShape_unique _ _ v hs' hs]
 
-/-- `anchor`: accepted ⇔ None, the number 0, or an array_like of shape (3,) or (n,3) — where the code also lets the EMPTY
-(0,3) array through (finding: `rotate_from_angax(45, 'z', anchor=np.zeros((0,3)))` then fails with a ValueError) -/
+/-- `anchor`: accepted ⇔ None, the number 0, or an array_like of shape (3,) or (n,3) with n ≥ 1 — at full strength since the
+repair of `check_format_input_anchor` (before it the empty (0,3) array passed the check and `rotate_from_angax(45, 'z',
+anchor=np.zeros((0,3)))` failed later with a ValueError; the statement then carried the disjunct `∨ hasShape [0, 3] v`) -/
 theorem anchor_accepts_iff_documented (v : PyVal) :
-    (∃ s, checkAnchor v = .ok s) ↔ (docAnchor v = true ∨ hasShape [0, 3] v = true) := by
+    (∃ s, checkAnchor v = .ok s) ↔ docAnchor v = true := by
   simp only [anchor_ok_iff]
   by_cases hn : v = .none
-  · subst hn; exact ⟨fun _ => Or.inl rfl, fun _ => ⟨.none, Or.inr (Or.inl ⟨rfl, rfl⟩)⟩⟩
+  · subst hn; exact ⟨fun _ => rfl, fun _ => ⟨.none, Or.inr (Or.inl ⟨rfl, rfl⟩)⟩⟩
   have hdoc : docAnchor v = (isZero v || (isArrayLike v && (hasShape [3] v || (hasShape [outerLen v, 3] v && decide (1 ≤ outerLen v))))) := by
     cases v <;> first | (exact absurd rfl hn) | rfl
   rw [hdoc]
   simp only [hn, false_and, false_or, Bool.or_eq_true, Bool.and_eq_true, decide_eq_true_eq]
   constructor
-  · rintro ⟨s, h | ⟨ha, sh, hs, hc, _⟩⟩
-    · exact Or.inl (Or.inl h.1)
+  · rintro ⟨s, h | ⟨ha, sh, hs, hc, hp, _⟩⟩
+    · exact Or.inl h.1
     · rcases (shapeCond_position sh).mp hc with rfl | ⟨m, rfl⟩
-      · exact Or.inl (Or.inr ⟨ha, Or.inl hs⟩)
+      · exact Or.inr ⟨ha, Or.inl hs⟩
       · have ho := outerLen_of_hasShape m [3] v hs
-        by_cases hm : m = 0
-        · subst hm; exact Or.inr hs
-        · exact Or.inl (Or.inr ⟨ha, Or.inr ⟨by rw [ho]; exact hs, by omega⟩⟩)
-  · rintro ((hz | ⟨ha, h3 | ⟨hs, _⟩⟩) | h0)
+        have hm : m ≠ 0 := by rintro rfl; simp [prod] at hp
+        exact Or.inr ⟨ha, Or.inr ⟨by rw [ho]; exact hs, by omega⟩⟩
+  · rintro (hz | ⟨ha, h3 | ⟨hs, h1⟩⟩)
     · exact ⟨_, Or.inl ⟨hz, rfl⟩⟩
-    · exact ⟨_, Or.inr ⟨ha, [3], h3, (shapeCond_position _).mpr (Or.inl rfl), rfl⟩⟩
-    · exact ⟨_, Or.inr ⟨ha, _, hs, (shapeCond_position _).mpr (Or.inr ⟨_, rfl⟩), rfl⟩⟩
-    · have ha : isArrayLike v = true := by cases v <;> simp_all [hasShape, isArrayLike]
-      exact ⟨_, Or.inr ⟨ha, _, h0, (shapeCond_position _).mpr (Or.inr ⟨_, rfl⟩), rfl⟩⟩
+    · exact ⟨_, Or.inr ⟨ha, [3], h3, (shapeCond_position _).mpr (Or.inl rfl), by simp [prod], rfl⟩⟩
+    · exact ⟨_, Or.inr ⟨ha, _, hs, (shapeCond_position _).mpr (Or.inr ⟨_, rfl⟩), by simp [prod]; omega, rfl⟩⟩
 
-/-- witness (finding `anchor-accepts-empty`): the empty (0,3) array is not a documented anchor and is accepted -/
-theorem anchor_accepts_empty :
-    checkAnchor (.arr [0, 3] []) = .ok (.array ⟨[0, 3], []⟩) ∧ docAnchor (.arr [0, 3] []) = false := ⟨by rfl, by decide⟩
+/-- the former finding `anchor-accepts-empty` (before the repair this theorem stated the acceptance): the empty (0,3) array is
+not a documented anchor and is refused with the library's input error -/
+theorem anchor_rejects_empty :
+    checkAnchor (.arr [0, 3] []) = .error .badUserInput ∧ docAnchor (.arr [0, 3] []) = false := ⟨by rfl, by decide⟩
 
 theorem anchor_error_is_bad (v : PyVal) (e : Err) (h : checkAnchor v = .error e) : e = .badUserInput := by
   unfold checkAnchor at h
   split at h
   · cases h
-  · exact vector_error_is_bad anchorCfg (by simp [anchorCfg]) (by simp [anchorCfg]) v e h
+  · unfold anchorVec at h
+    cases hc : checkVector anchorCfg v with
+    | error e' =>
+      simp only [hc] at h
+      injection h with h; subst h
+      exact vector_error_is_bad anchorCfg (by simp [anchorCfg]) (by simp [anchorCfg]) v _ hc
+    | ok s0 =>
+      simp only [hc] at h
+      cases s0 with
+      | array a =>
+        dsimp only at h
+        split at h
+        · injection h with h; exact h.symm
+        · cases h
+      | none => cases h
+      | scalar x => cases h
+      | text t => cases h
+      | quats n => cases h
 
-/-- `angle`: every real number (int, float, bool, nan) is accepted and stored as its float; a complex number raises the
-TypeError of `float(inp)` (finding `foreign-error:angle:TypeError`); everything else goes through the vector validator
-for shape (n,), n ≥ 0 -/
+/-- `angle`: every real number (int, float, bool, nan) is accepted and stored as its float; everything else that is not a
+number goes through the vector validator for shape (n,), n ≥ 0 -/
 theorem angle_accepts_iff_documented (v : PyVal) :
     (∃ s, checkAngle v = .ok s) ↔ docAngle v = true := by
   unfold checkAngle docAngle
@@ -1158,16 +1204,17 @@ theorem angle_accepts_iff_documented (v : PyVal) :
       exact ⟨_, (vector_ok_iff angleCfg (by simp [angleCfg]) rfl v _).mpr
         (Or.inr ⟨ha, _, hs, ⟨by simp [angleCfg], Or.inl rfl, Or.inl rfl⟩, by simp [angleCfg], rfl⟩)⟩
 
-/-- the rejections of `angle`: the library's input error, except for a complex number -/
-theorem angle_error_kinds (v : PyVal) (e : Err) (h : checkAngle v = .error e) :
-    e = .badUserInput ∨ (v = .cplx ∧ e = .foreign "TypeError") := by
+/-- every rejection of `angle` is the library's input error — at full strength since the repair of
+`check_format_input_angle` (before it a complex number escaped as the TypeError of `float(inp)`:
+`rotate_from_angax(1j, 'z')`; the statement then read `e = badUserInput ∨ (v = cplx ∧ e = foreign "TypeError")`) -/
+theorem angle_error_is_bad (v : PyVal) (e : Err) (h : checkAngle v = .error e) : e = .badUserInput := by
   unfold checkAngle at h
   split at h
   · cases v <;> simp_all [isNumber, pyFloat]
-  · exact Or.inl (vector_error_is_bad angleCfg (by simp [angleCfg]) (by simp [angleCfg]) v e h)
+  · exact vector_error_is_bad angleCfg (by simp [angleCfg]) (by simp [angleCfg]) v e h
 
-/-- witness (finding `foreign-error:angle:TypeError`): `rotate_from_angax(1j, 'z')` raises TypeError -/
-theorem angle_complex_is_foreign : checkAngle .cplx = .error (.foreign "TypeError") := rfl
+/-- the former finding `foreign-error:angle:TypeError`: a complex angle is refused with the library's input error -/
+theorem angle_complex_is_bad : checkAngle .cplx = .error .badUserInput := rfl
 
 theorem axis_vec_ok_iff (v : PyVal) (s : Stored) :
     checkVector axisCfg v = .ok s ↔ (isArrayLike v = true ∧ hasShape [3] v = true ∧ s = .array ⟨[3], flat v⟩) := by
@@ -1415,8 +1462,8 @@ theorem skeleton_is_modelled :
         ("check_degree_type", ["if not isinstance(inp, bool)", "  raise MagpylibBadUserInput"]),
         ("check_field_input", ["allowed = tuple('BHMJ')", "if not (isinstance(inp, str) and inp in allowed)", "  raise MagpylibBadUserInput"]),
         ("check_getBH_output_type", ["acceptable = ('ndarray', 'dataframe')", "if output not in acceptable", "  raise ValueError", "if output == 'dataframe'", "  try", "  except ImportError", "    raise ModuleNotFoundError", "return output"]),
-        ("check_format_input_anchor", ["if isinstance(inp, numbers.Number) and inp == 0", "  return np.array((0.0, 0.0, 0.0))", "return check_format_input_vector(inp, dims=(1, 2), shape_m1=3, sig_name='anchor', sig_type='`None` or `0` or array_like (list, tuple, ndarray) with shape (3,)', allow_None=True)"]),
-        ("check_format_input_angle", ["if isinstance(inp, numbers.Number)", "  return float(inp)", "return check_format_input_vector(inp, dims=(1,), shape_m1='any', sig_name='angle', sig_type='int, float or array_like (list, tuple, ndarray) with shape (n,)')"]),
+        ("check_format_input_anchor", ["if isinstance(inp, numbers.Number) and inp == 0", "  return np.array((0.0, 0.0, 0.0))", "inp = check_format_input_vector(...)", "if inp is not None and inp.size == 0", "  raise MagpylibBadUserInput", "return inp"]),
+        ("check_format_input_angle", ["if isinstance(inp, numbers.Number)", "  try", "    return float(inp)", "  except (TypeError, OverflowError)", "    raise MagpylibBadUserInput", "return check_format_input_vector(inp, dims=(1,), shape_m1='any', sig_name='angle', sig_type='int, float or array_like (list, tuple, ndarray) with shape (n,)')"]),
         ("check_format_input_axis", ["if isinstance(inp, str)", "  if inp == 'x'", "    return np.array((1, 0, 0))", "  if inp == 'y'", "    return np.array((0, 1, 0))", "  if inp == 'z'", "    return np.array((0, 0, 1))", "  raise MagpylibBadUserInput", "inp = check_format_input_vector(...)", "if np.all(inp == 0)", "  raise MagpylibBadUserInput", "return inp"]),
         ("check_format_input_orientation", ["if not isinstance(inp, (Rotation, type(None)))", "  raise MagpylibBadUserInput", "if inp is None", "  inpQ = np.array((0, 0, 0, 1))", "  inp = Rotation.from_quat(inpQ)", "else", "  inpQ = inp.as_quat()", "  if not np.all(np.isfinite(inpQ))", "    raise MagpylibBadUserInput", "if init_format", "  if inpQ.size == 0", "    raise MagpylibBadUserInput", "  return np.reshape(inpQ, (-1, 4))", "return (inp, inpQ)"]),
         ("Sensor.pixel", ["pixel = check_format_input_vector(...)", "if pixel is not None and pixel.size == 0", "  raise MagpylibBadUserInput", "self._pixel = pixel"]),
